@@ -76,10 +76,21 @@ func defSuf(s, x []byte) bool { return len(s) >= len(x) && defEq(s[len(s)-len(x)
 func isASCII(s []byte) bool { return defValid(s) }
 
 // place copies s at the given alignment inside a larger buffer so that the first byte's address varies
-func place(s []byte, off int) []byte {
-	buf := make([]byte, len(s)+128)
+// The bytes around it are the caller's and none of the predicates' business: they are filled with bytes that
+// would change the answer if they were looked at (non-ASCII; different around the two arguments), and at odd
+// alignments the slice has spare capacity reaching into them.
+func place(s []byte, off int) []byte { return placeIn(s, off, 0xff) }
+
+func placeIn(s []byte, off int, fill byte) []byte {
+	buf := make([]byte, len(s)+160)
+	for i := range buf {
+		buf[i] = fill
+	}
 	base := 64 - int(uintptrOf(buf)%64)
 	copy(buf[base+off:], s)
+	if off%2 == 1 {
+		return buf[base+off : base+off+len(s) : base+off+len(s)+24]
+	}
 	return buf[base+off : base+off+len(s) : base+off+len(s)]
 }
 
@@ -96,7 +107,7 @@ func c20Check(c *Ctx, api string, a, b []byte, off int, want bool, f func() bool
 }
 
 func c20All(c *Ctx, a0, b0 []byte, off int) {
-	a, b := place(a0, off), place(b0, (off*7+3)%64)
+	a, b := placeIn(a0, off, 0xff), placeIn(b0, (off*7+3)%64, 0x80)
 	c20Check(c, "Valid", a0, nil, off, defValid(a), func() bool { return ascii.Valid(a) })
 	c20Check(c, "ValidString", a0, nil, off, defValid(a), func() bool { return ascii.ValidString(string(a)) })
 	c20Check(c, "ValidPrint", a0, nil, off, defPrint(a), func() bool { return ascii.ValidPrint(a) })
